@@ -12,6 +12,7 @@ import (
 	"encoding/json"
 	"fmt"
 	"strconv"
+	"strings"
 	"testing"
 	"time"
 
@@ -66,7 +67,12 @@ func runPush(t *testing.T, tape *verifsim.Tape, prop, tier string, keepLog bool)
 		ctx := context.Background()
 		var names []string
 
-		// local models to push (they share the GGUF layer with probability 1/2)
+		// A blob is visible in a repository only once it was uploaded or mounted there
+		// (two runs in three): pushing a model that shares layers with one pushed earlier
+		// then goes through the cross-repository mount.
+		w.reg.perRepo = d("per-repo", 3) != 0
+		// local models to push (they share the GGUF layer with probability 1/2); later
+		// models may be created FROM an earlier one (their layers then name it as origin)
 		setup := false
 		sim.Go("setup", func() {
 			for i := 0; i < nmodels; i++ {
@@ -76,6 +82,9 @@ func runPush(t *testing.T, tape *verifsim.Tape, prop, tier string, keepLog bool)
 					g = 20 + i
 				}
 				op := storeOp{kind: "create", name: name, gguf: g, extra: d("variant", 6)}
+				if i > 0 && d("from-earlier", 2) == 0 {
+					op = storeOp{kind: "create-from", name: name, from: names[d("from-which", len(names))], extra: d("variant", 6)}
+				}
 				r := w.doOp(ctx, op)
 				if !r.ok() {
 					res.HarnessErr = "push setup: " + op.String() + " failed: " + r.errorMsg()
@@ -84,7 +93,13 @@ func runPush(t *testing.T, tape *verifsim.Tape, prop, tier string, keepLog bool)
 			}
 			// some blobs already exist at the registry (HEAD says present / mount succeeds)
 			if d("preexisting", 3) == 0 {
-				w.reg.addBlob(ggufBytes(20))
+				dig := w.reg.addBlob(ggufBytes(20))
+				w.reg.grant("lib/other", dig)
+				if d("preexisting-everywhere", 2) == 0 {
+					for i := 0; i < nmodels; i++ {
+						w.reg.grant("lib/p"+strconv.Itoa(i), dig)
+					}
+				}
 			}
 			setup = true
 		})
@@ -109,10 +124,16 @@ func runPush(t *testing.T, tape *verifsim.Tape, prop, tier string, keepLog bool)
 					continue
 				}
 				data, ok := w.reg.blobs[l.Digest]
+				repo := name[:strings.LastIndex(name, ":")]
 				switch {
 				case !ok || !w.reg.committed[l.Digest]:
 					w.violate("C09", "push-order", "legacy-push:manifest-before-layer-accepted", "PushModel sent the manifest of %s while layer %s had not been accepted by the registry (no committed upload, not present before)", name, shortDigest(l.Digest))
 					return
+				case !w.reg.has(repo, l.Digest):
+					// The layer was accepted by the registry, but into another repository
+					// (uploads are de-duplicated by digest across concurrent pushes). The
+					// statement says "accepted by the registry": counted, not a violation.
+					verifsim.Probe("layer_accepted_only_in_another_repository")
 				case sha256Digest(data) != l.Digest:
 					w.violate("C09", "push-order", "legacy-push:layer-content", "the registry holds %s with content that does not match", shortDigest(l.Digest))
 					return
